@@ -233,6 +233,7 @@ func Add(a, b *Term) *Term {
 		if x.Sign() == 0 {
 			return b
 		}
+		return Add(b, a) // constants go last so that they fold
 	}
 	if y, ok := b.IntVal(); ok && y.Sign() == 0 {
 		return a
@@ -346,8 +347,80 @@ func Mul(a, b *Term) *Term {
 	return t
 }
 
+// addends flattens a sum into its terms.
+func addends(t *Term, out []*Term) []*Term {
+	if t.op == OAdd && t.sort == SInt {
+		out = addends(t.args[0], out)
+		return addends(t.args[1], out)
+	}
+	return append(out, t)
+}
+
+// splitMultiples splits sum a into (m, rest) with a = m*c + rest where m
+// collects the addends that are syntactic multiples of c. ok=false if nothing
+// could be pulled out.
+func splitMultiples(a *Term, c *big.Int) (*Term, *Term, bool) {
+	if a.op != OAdd {
+		return nil, nil, false
+	}
+	var m, rest *Term
+	pulled := false
+	for _, t := range addends(a, nil) {
+		var q *Term
+		if v, ok := t.IntVal(); ok {
+			if new(big.Int).Mod(v, c).Sign() == 0 {
+				q = BigC(new(big.Int).Quo(v, c))
+			}
+		} else if t.op == OMul {
+			if k, ok := t.args[1].IntVal(); ok && new(big.Int).Mod(k, c).Sign() == 0 {
+				q = Mul(t.args[0], BigC(new(big.Int).Quo(k, c)))
+			}
+		}
+		if q != nil {
+			pulled = true
+			if m == nil {
+				m = q
+			} else {
+				m = Add(m, q)
+			}
+			continue
+		}
+		if rest == nil {
+			rest = t
+		} else {
+			rest = Add(rest, t)
+		}
+	}
+	if !pulled {
+		return nil, nil, false
+	}
+	if rest == nil {
+		rest = IntC(0)
+	}
+	if m == nil {
+		m = IntC(0)
+	}
+	return m, rest, true
+}
+
 // EDiv is SMT-LIB div (euclidean); b must be non-zero (caller guards).
 func EDiv(a, b *Term) *Term {
+	if y, ok := b.IntVal(); ok && y.Sign() > 0 {
+		// (m*c + rest) div c = m + rest div c
+		if m, rest, ok := splitMultiples(a, y); ok {
+			return Add(m, EDiv(rest, b))
+		}
+		// 0 <= a < c
+		if a.lo != nil && a.hi != nil && a.lo.Sign() >= 0 && a.hi.Cmp(y) < 0 {
+			return IntC(0)
+		}
+		// (x div c1) div c2 = x div (c1*c2)
+		if a.op == ODiv {
+			if c1, ok := a.args[1].IntVal(); ok && c1.Sign() > 0 {
+				return EDiv(a.args[0], BigC(new(big.Int).Mul(c1, y)))
+			}
+		}
+	}
 	if x, ok := a.IntVal(); ok {
 		if y, ok := b.IntVal(); ok && y.Sign() != 0 {
 			q, m := new(big.Int), new(big.Int)
@@ -369,6 +442,11 @@ func EDiv(a, b *Term) *Term {
 }
 
 func EMod(a, b *Term) *Term {
+	if y, ok := b.IntVal(); ok && y.Sign() > 0 && a.op == OAdd {
+		if _, rest, ok := splitMultiples(a, y); ok {
+			return EMod(rest, b)
+		}
+	}
 	if x, ok := a.IntVal(); ok {
 		if y, ok := b.IntVal(); ok && y.Sign() != 0 {
 			q, m := new(big.Int), new(big.Int)
